@@ -382,6 +382,8 @@ func genDrop(t *rapid.T) Drop {
 		return Drop{}
 	case 4:
 		return Drop{All: true}
+	case 5:
+		return Drop{Keep: rapid.SampledFrom([]int{1024, 1024, 1024, 2048, 1023, 1025, 128, 256}).Draw(t, "keep")}
 	default:
 		n := rapid.IntRange(1, 6).Draw(t, "ndrops")
 		d := Drop{}
